@@ -57,7 +57,7 @@ func main() {
 		"for corrupted files only the direction 'a returned bundle is byte-faithful to what the file encodes' and 'a file that is not valid JSON / has no parseable base CRL / has an unparseable non-null delta yields an error' are judged"}
 	// scratch must not live in the monitored TMPDIR decoy
 	scratch := lib.TempDir("c15")
-	defer os.RemoveAll(scratch)
+	r.OnExit(func() { os.RemoveAll(scratch) })
 	os.Setenv("VERIF_SCRATCH", scratch)
 	tmpDecoy := filepath.Join(scratch, "TMPDIR-decoy")
 	os.MkdirAll(tmpDecoy, 0o755)
